@@ -343,6 +343,90 @@ Theorem C11_complete_grid_grouped_exact_degree_any_force : forall lo g sv force 
 Proof. exact complete_grid_grouped_exact_any_force. Qed.
 Print Assumptions C11_complete_grid_forced_identity.
 Print Assumptions C11_complete_grid_grouped_exact_degree_any_force.
+(* --- UNIT grouping (the library default) with sliced-Romberg slices on the complete dyadic grid: degree 2m+1 for EVERY m,
+       every interval, with or without forced balancing, either container version (unit containers never use it).  The
+       support sequence of slice i is the chain of dyadic cells containing it (closed form of supp_rec on complete level
+       vectors), the sliced trapezoid is additive over adjacent slices, so level j of all slices adds up to the composite
+       trapezoidal sum T_j.  Replaces C11_full_romberg_exact_*_bounded (kept as non-vacuity: the model accepts m <= 7). *)
+From SG Require Import Proofs.RombergUnit.
+Theorem C11_unit_complete_grid_exact_degree : forall lo cv force a b m r k, a < b -> (1 <= m)%nat ->
+  extrapolation_grid_from lo G_Unit SV_Romberg cv force (complete_grid a b m) (complete_levels m) = Some r ->
+  (k <= 2 * m + 1)%nat ->
+  er_grid r = complete_grid a b m /\ wpow k (er_dict r) = Ik k a b.
+Proof. exact unit_complete_exact. Qed.
+Theorem C11_complete_grid_support_sequence : forall m i, (i < 2 ^ m)%nat ->
+  support_sequence_idx (complete_levels m) i = (0%nat, (2 ^ m)%nat) :: path m 0 i.
+Proof. exact complete_support_idx. Qed.
+Print Assumptions C11_unit_complete_grid_exact_degree.
+(* ... and UNCONDITIONALLY: the model accepts the complete grid with UNIT / sliced Romberg for every m (every support pair of
+       every slice contains the slice and is non-degenerate: no assert fails) *)
+From SG Require Import Proofs.RombergUnitAccept.
+Theorem C11_unit_complete_grid_accepted_exact_degree : forall lo cv force a b m, a < b -> (1 <= m)%nat ->
+  exists r, extrapolation_grid_from lo G_Unit SV_Romberg cv force (complete_grid a b m) (complete_levels m) = Some r /\
+            er_grid r = complete_grid a b m /\
+            forall k, (k <= 2 * m + 1)%nat -> wpow k (er_dict r) = Ik k a b.
+Proof. exact unit_complete_accepted_exact. Qed.
+Print Assumptions C11_unit_complete_grid_accepted_exact_degree.
+Example C11_nonvacuous_unit_exact :
+  match extrapolation_grid_from 0 G_Unit SV_Romberg CV_Default false (complete_grid (q (-3) 4) (q 5 4) 3) (complete_levels 3) with
+  | Some r => Nat.eqb (length (er_container_sizes r)) 8 | None => false end = true.
+Proof. vm_compute. reflexivity. Qed.
+(* --- BalancedExtrapolationGrid on the complete dyadic grid: degree 2m-1 for EVERY m (replaces C11_balanced_exact_bounded,
+       kept as non-vacuity).  The tree built from the complete grid is the complete cell tree, the first tableau column
+       holds the composite midpoint rules M_0..M_(m-1), whose error on x^p is an even polynomial in the step width
+       (C11_midpoint_even_expansion); column k multiplies the coefficient of h^(2l) by (4^k-4^l)/(4^k-1). *)
+From SG Require Import Proofs.RombergBalancedDegree.
+Theorem C11_midpoint_even_expansion : forall p lo w,
+  exists g, (length g <= Nat.div2 p)%nat /\ forall j, midD (pw p) lo w j = Ik p lo (lo + w) + tj w j * pev g (tj w j).
+Proof. exact mid_even_expansion. Qed.
+Theorem C11_balanced_complete_grid_exact_degree : forall a b m d p, a < b -> (1 <= m)%nat ->
+  balanced_dict (complete_grid a b m) (complete_levels m) = Some d -> (p <= 2 * m - 1)%nat ->
+  wpow p d = Ik p a b.
+Proof. exact balanced_complete_exact. Qed.
+(* ... the returned weight list, given the run-time checker keys_in_grid (evaluated on every explored case) *)
+Theorem C11_balanced_complete_grid_weights_exact_degree : forall a b m d ws p, a < b -> (1 <= m)%nat ->
+  balanced_dict (complete_grid a b m) (complete_levels m) = Some d ->
+  balanced_weights (complete_grid a b m) (complete_levels m) = Some ws ->
+  keys_in_grid d (complete_grid a b m) = true -> (p <= 2 * m - 1)%nat ->
+  dotQ (map (pw p) (complete_grid a b m)) ws = Ik p a b.
+Proof. exact balanced_complete_weights_exact. Qed.
+Print Assumptions C11_balanced_complete_grid_exact_degree.
+Print Assumptions C11_balanced_complete_grid_weights_exact_degree.
+Example C11_nonvacuous_balanced_exact :
+  match balanced_dict (complete_grid 0 1 3) (complete_levels 3), balanced_weights (complete_grid 0 1 3) (complete_levels 3) with
+  | Some d, Some ws => keys_in_grid d (complete_grid 0 1 3) && Nat.eqb (length ws) 9 | _, _ => false end = true.
+Proof. vm_compute. reflexivity. Qed.
+(* --- Simpson-Romberg containers with the repaired coefficients (levels lo..K, lo >= 1; the code since fix 30bfe01 has lo = 1):
+       degree 3 as a GENERAL theorem (replaces C11_simpson_repair_exact_bounded, kept as non-vacuity).  The container
+       weights applied to ANY f are c_0*h_0/3*(f(a)+f(b)) + sum_{j>=1} c_j * S_j(f) with the composite Simpson sums
+       S_j = (4 T_j - T_(j-1))/3; c_0 = 0, every S_j integrates cubics exactly (even expansion of T_j), sum_j c_j = 1. *)
+From SG Require Import Proofs.RombergSimpsonDegree.
+Theorem C11_simpson_weights_are_simpson_sums : forall lo a b K (f : Qc -> Qc), (1 <= K)%nat ->
+  dotQ (map f ([a] ++ nodes a (b - a) K ++ [b]))
+       ([s_boundary lo a b K] ++ map (s_inner lo a b K) (full_levels K 1) ++ [s_boundary lo a b K])
+  = sc lo a b K 0%nat * (step_width a b 0 * / (1 + 1 + 1) * (f a + f b))
+    + sumQ (map (fun j => sc lo a b K j * simpson_level a b f j) (seq 1 K)).
+Proof. exact simpson_full_dot. Qed.
+Theorem C11_simpson_container_exact_degree : forall lo sv K h c cs k,
+  length c = (2 ^ K)%nat -> (1 <= lo <= K)%nat -> chain c -> Forall (fun s => sl_width s = h) c ->
+  Forall (fun s => sl_l s < sl_r s) c ->
+  container_final_from lo sv CV_Simpson c = Some cs -> (k <= 3)%nat ->
+  wpow k cs = Ik k (container_left c) (container_right c).
+Proof. exact simpson_container_exact. Qed.
+(* ... the whole pipeline (every grid, grouping, slice version, balancing flag): degree 3 when every container has >= 2 slices *)
+Theorem C11_simpson_sliced_exact_degree : forall g sv force grid levels r k,
+  extrapolation_grid_from 1 g sv CV_Simpson force grid levels = Some r ->
+  Forall (fun n => (2 <= n)%nat) (er_container_sizes r) -> (k <= 3)%nat ->
+  wpow k (er_dict r) = Ik k (grid_a r) (grid_b r).
+Proof. exact simpson_sliced_exact_degree. Qed.
+Print Assumptions C11_simpson_container_exact_degree.
+Print Assumptions C11_simpson_sliced_exact_degree.
+Example C11_nonvacuous_simpson_exact :
+  match extrapolation_grid_from 1 G_Optimized SV_Romberg CV_Simpson false
+          [0; q 1 4; q 1 2; q 5 8; q 3 4; q 7 8; 1] [0; 2; 1; 3; 2; 3; 0]%nat with
+  | Some r => forallb (fun n => (2 <=? n)%nat) (er_container_sizes r) && Nat.eqb (length (er_container_sizes r)) 2
+  | None => false end = true.
+Proof. vm_compute. reflexivity. Qed.
 (* non-vacuity: depth 3 on [-3/4, 5/4], GROUPED_OPTIMIZED with forced balancing: one container of 8 slices, keys aligned *)
 Example C11_nonvacuous_exact_degree :
   match extrapolation_grid_from 0 G_Optimized SV_Romberg CV_Default true
